@@ -271,6 +271,7 @@ def problems(env, cfg, tier):
         return {**reset_clauses(s, ts), "canary.reset_board_has_one_empty_cell": empties(s.board) == 1}
 
     reset_gen = dict(title=f"Sudoku.reset[generator boundary]@{cfg}", args=(state, state.key), requires=gen_post, ensures=gen_ens,
+                     props=("C01", "C06", "C11", "C12"),  # (C04 at reset is proved on the real generators, not assumed)
                      targets=[Env.reset], note="generator replaced by its post-condition (contract boundary; the generator's own "
                                                "contract is C10; the shipped DatabaseGenerator is exercised in the next problem)")
 
